@@ -115,6 +115,26 @@ func render(n *Node) string {
 		return s
 	case "defer-probe":
 		return "defer p(" + id + ")"
+	case "defer-nested":
+		// the deferred literal is created two blocks deep and uses a variable of the block in between; more block
+		// statements follow before the invocation ends
+		v := strconv.Itoa(n.Val)
+		if n.Var {
+			return "try {\ntv" + id + " = 0\nif true {\ndefer func() { pv(" + id + ", tv" + id + ") }()\n}\ntv" + id + " = " + v + "\n} catch ee" + id + " { }\nif true { zz" + id + " = 1 }\nfor zk" + id + " in [1] { zy" + id + " = zk" + id + " }"
+		}
+		return "for c" + id + " = 0; c" + id + " < 2; c" + id + "++ {\nbv" + id + " = " + v + "\nif c" + id + " == 1 {\ndefer func() { pv(" + id + ", bv" + id + ") }()\n}\n}\nif true { zz" + id + " = 1 }\nswitch 1 {\ncase 1:\nzy" + id + " = 2\n}"
+	case "defer-anonarg":
+		// an argument of the deferred (or anonymous) call is itself an anonymous call
+		v := strconv.Itoa(n.Val)
+		switch n.N % 4 {
+		case 0:
+			return "defer pv(func(a, b) { return a }(" + id + ", 2), " + v + ")"
+		case 1:
+			return "defer func(x, y) { pv(x, y) }(func(a, b) { return a }(" + id + ", 2), " + v + ")"
+		case 2:
+			return "[pv][0](func(a, b) { return a }(" + id + ", 2), " + v + ")"
+		}
+		return "defer pv(func(a) { return a }(" + id + "), " + v + ")"
 	case "defer-arg":
 		return "x" + id + " = " + strconv.Itoa(n.Val) + "\ndefer pv(" + id + ", x" + id + ")\nx" + id + " = " + strconv.Itoa(n.Val+1)
 	case "defer-callarg":
@@ -530,6 +550,25 @@ func (m *model) exec(n *Node, fr *frame) sig {
 	case "defer-probe":
 		fr.defers = append(fr.defers, func() sig { return m.host("p:" + id) })
 		return sig{}
+	case "defer-nested":
+		v := strconv.Itoa(n.Val)
+		fr.defers = append(fr.defers, func() sig {
+			return m.call(func(f *frame) sig { return m.host("v:" + id + ":" + v) })
+		})
+		return sig{}
+	case "defer-anonarg":
+		v := strconv.Itoa(n.Val)
+		switch n.N % 4 {
+		case 1:
+			fr.defers = append(fr.defers, func() sig {
+				return m.call(func(f *frame) sig { return m.host("v:" + id + ":" + v) })
+			})
+		case 2:
+			return m.host("v:" + id + ":" + v)
+		default:
+			fr.defers = append(fr.defers, func() sig { return m.host("v:" + id + ":" + v) })
+		}
+		return sig{}
 	case "defer-arg":
 		v := n.Val
 		fr.defers = append(fr.defers, func() sig { return m.host("v:" + id + ":" + strconv.Itoa(v)) })
@@ -861,6 +900,10 @@ func (g *gen) stmt(c gctx) *Node {
 			return &Node{K: "defer-probe", ID: id}
 		case k == 9 && g.r.Intn(3) == 0:
 			return &Node{K: "defer-loopvar", ID: id, N: g.id(), Val: 100 + g.r.Intn(800)}
+		case k == 9 && g.r.Intn(3) == 0:
+			return &Node{K: "defer-nested", ID: id, Var: g.r.Intn(2) == 0, Val: 100 + g.r.Intn(800)}
+		case k == 9 && g.r.Intn(3) == 0:
+			return &Node{K: "defer-anonarg", ID: id, N: g.r.Intn(4), Val: 100 + g.r.Intn(800)}
 		case k == 9:
 			return &Node{K: "defer-arg", ID: id, Val: 100 + g.r.Intn(800)}
 		case k == 10 && !leaf:
